@@ -218,6 +218,14 @@ def call_entry(entry, rec, dt, periods, xi):
     if entry == 'AccSignal.response_series[int record]':
         s = eqsig.AccSignal(rec.astype(np.int64), dt)
         return s.response_series(response_times=np.array(periods), xi=xi)
+    if entry == HISTORY_ENTRY:
+        # the same object has already answered for ANOTHER period list with the same damping; the periods are then changed
+        # through the public setter and the series asked for again: they are those of the periods the object holds now
+        other = [0.0 if P == 0 else 1.5 * P for P in periods]
+        s = eqsig.AccSignal(rec, dt, response_times=np.array(other))
+        s.response_series(xi=xi)
+        s.response_times = np.array(periods)
+        return s.response_series(xi=xi)
     if entry in PERIOD_DTYPE_ENTRIES:
         p32 = np.array(periods, dtype=np.float32)      # the caller passes as_float32_values(...): no rounding here
         if entry == 'sdof.response_series[float32 periods]':
@@ -235,6 +243,7 @@ ENTRIES = ['sdof.response_series', 'sdof.response_series[list]', 'sdof.nigam_and
 DTYPE_ENTRIES = ['sdof.response_series[int32 record]', 'sdof.response_series[float32 record]', 'AccSignal.response_series[int record]']
 # periods stored in a single-precision array (every value exactly representable): the requested oscillators are those same
 # numbers, so the response is that of the float64 array with equal values
+HISTORY_ENTRY = 'AccSignal.response_series[second call, response_times changed in between]'
 PERIOD_DTYPE_ENTRIES = ['sdof.response_series[float32 periods]', 'sdof.nigam_and_jennings_response[float32 periods]',
                         'AccSignal.response_series[arg, float32 periods]']
 
@@ -345,6 +354,8 @@ def run(rep, rng, tier):
         if k % 7 == 6:
             entry = DTYPE_ENTRIES[(k // 7) % len(DTYPE_ENTRIES)]
             rec = np.round(rec * 8) if 'int' in entry else np.array(rec, dtype=np.float32).astype(float)
+        if k % 7 == 5:
+            entry = HISTORY_ENTRY
         if k % 7 == 3:
             entry = PERIOD_DTYPE_ENTRIES[(k // 7) % len(PERIOD_DTYPE_ENTRIES)]
             periods = as_float32_values(periods)
